@@ -403,6 +403,22 @@ func checkC20(p *Prog, r *Report) {
 	}
 	// a query answers from the entries of the item it was asked about: a listing's prefix fixes every component that names the parent
 	aolListings(p, r, buildAolModel(p), "C20")
+	// a query at a fixed height answers with the stored entry and nothing else: the read accessors the AOL queries go through
+	// return the unmarshalled store value unconditionally — a field "filled in" from the context (block time, height) changes
+	// with every block committed after the height the query was pinned to
+	{
+		am := buildAolModel(p)
+		nGet := 0
+		for _, f := range []string{"Owner", "Topic", "Writer", "Record"} {
+			for _, a := range am.byFamily[f] {
+				if a.Op == "Get" {
+					nGet++
+					checkAccessorShape(p, r, kp("SHAPE", FuncName(a.Fn)), "the read accessor returns the unmarshalled store value and nothing derived from the context", a.SO, 1)
+				}
+			}
+		}
+		r.Floor("aol-read-accessors", nGet, 4)
+	}
 	// repeated queries at a fixed height give identical answers: no query answer is assembled in map iteration order
 	{
 		nMapQ := 0
